@@ -702,7 +702,7 @@ def main():
     setarch = have_setarch()
 
     # ---- designs -------------------------------------------------------------------------------
-    ngen = 800 if thorough else 32
+    ngen = 600 if thorough else 32
     nbuilds = 5 if thorough else 4
     nshuffle = 5 if thorough else 3
     cycles = 24 if thorough else 12
